@@ -15,12 +15,14 @@ import (
 	"strings"
 	"sync"
 	"time"
+	"unsafe"
 
 	protocol "github.com/hujm2023/go-sms-protocol"
 	sms "github.com/hujm2023/go-sms-protocol"
 	"github.com/hujm2023/go-sms-protocol/cmpp"
 	"github.com/hujm2023/go-sms-protocol/datacoding"
 	gsm7 "github.com/hujm2023/go-sms-protocol/datacoding/gsm7encoding"
+	"github.com/hujm2023/go-sms-protocol/packet"
 	"github.com/hujm2023/go-sms-protocol/smgp/smgp30"
 	"github.com/hujm2023/go-sms-protocol/smpp"
 	"github.com/hujm2023/go-sms-protocol/smpp/smpp34"
@@ -259,6 +261,37 @@ func runConc(c Case, tr *Tracer) {
 	results := make([][]string, ng)
 	var wg sync.WaitGroup
 	start := make(chan struct{})
+	// the pool hook of packet.Writer: one record per pool operation, ordered by a sequence taken under a lock
+	type poolEv struct {
+		op   string
+		w, b int
+		n    int
+	}
+	var pmu sync.Mutex
+	var plog []poolEv
+	// the maps hold pointers: every Writer and buffer seen stays alive (and keeps its address) while we record
+	wid, bid := map[unsafe.Pointer]int{}, map[unsafe.Pointer]int{}
+	nw := 0
+	const maxWriters = 300
+	packet.VerifPoolHook = func(op string, w, b unsafe.Pointer, n int) {
+		pmu.Lock()
+		defer pmu.Unlock()
+		if op == "get" {
+			if nw >= maxWriters {
+				return
+			}
+			nw++
+			wid[w] = nw
+		}
+		wi, ok := wid[w]
+		if !ok {
+			return
+		}
+		if _, ok := bid[b]; !ok {
+			bid[b] = len(bid) + 1
+		}
+		plog = append(plog, poolEv{op, wi, bid[b], n})
+	}
 	for g := 0; g < ng; g++ {
 		wg.Add(1)
 		go func(g int) {
@@ -275,7 +308,11 @@ func runConc(c Case, tr *Tracer) {
 	}
 	close(start)
 	wg.Wait()
+	packet.VerifPoolHook = nil
 	runtime.GOMAXPROCS(old)
+	for _, pe := range plog {
+		tr.emit(Ev{"ev": "Pool", "op": pe.op, "w": pe.w, "b": pe.b, "n": pe.n, "site": "packet.Writer/" + pe.op})
+	}
 	if fresh {
 		alone() // the reference comes afterwards: nothing was called alone before the goroutines ran
 	}
